@@ -1752,7 +1752,10 @@ def _gen_midi_rt(r):
 def _impl_midi_rt(rels):
     ss = [mk_rel(ms) for ms in rels]
     path = os.path.join(TMP, f"r{os.getpid()}.mid")
-    Sequence.sequences_save(ss, path)
+    if len(ss) == 1:
+        ss[0].save(path)              # Sequence.save = sequences_save([self], path)
+    else:
+        Sequence.sequences_save(ss, path)
     back = Sequence.sequences_load(path)
     return "#".join(show_seq(s) for s in back)
 
@@ -1892,6 +1895,12 @@ def _impl_comp_file(inp):
         out += "|".join(show_seq(s) for s in c.to_sequences())
     except Exception as e:
         out += show_exc(e)
+    path2 = os.path.join(TMP, f"d{os.getpid()}.mid")
+    try:
+        c.save(path2)
+        out += "#" + "#".join(show_seq(s) for s in Sequence.sequences_load(path2))
+    except Exception as e:
+        out += "#" + show_exc(e)
     return out
 
 
